@@ -493,3 +493,402 @@ Proof.
     destruct (accepts_loop k T (H ++ e1) p tl) as [H2 acc]. simpl in *. subst H2 acc.
     split; auto. rewrite <- app_assoc. eauto.
 Qed.
+
+(* ------------------------------------------------------------------ one operation on a world of forks *)
+Definition all_deep (o : op) : Prop := match o with OCopy _ false => False | _ => True end.
+
+Lemma paccepts_eq k T pp p : p_ss p = pp_ss pp ->
+  filter (fun t => kind_ok (snd (cfeed k T (p_ss p) t (t =? END)))) (choices T p) = paccepts k T pp.
+Proof. intros h. unfold paccepts, choices. rewrite h. auto. Qed.
+
+(* appending the outcome of "deep copy, then an operation on the copy" *)
+Lemma append_after_copy H pps ps F p ts f
+      (op_h : heap -> parser -> heap * list nat * list value * kind)
+      (op_p : list nat * list ptree * kind) imm :
+  wowns H pps ps F -> owns H ts (p_vs p) f ->
+  (forall H1 p1 f1, owns H1 ts (p_vs p1) f1 -> p_ss p1 = p_ss p -> sim_res H1 f1 (op_h H1 p1) op_p) ->
+  let c := copy_parser true H p in
+  let r := op_h (fst c) (snd c) in
+  rss r = qss op_p /\ rkd r = qkd op_p /\
+  exists F', wowns (rH r) (pps ++ [{| pp_imm := imm; pp_ss := qss op_p; pp_ts := qts op_p |}])
+                   (ps ++ [{| p_imm := imm; p_ss := rss r; p_vs := rvs r |}]) F'.
+Proof.
+  intros hw ho hop c r.
+  destruct (copy_parser_deep_spec _ _ _ _ ho) as (ext & f1 & a & b & c1 & d & e).
+  fold c in a, b, c1, d.
+  destruct (hop (fst c) (snd c) f1 ltac:(rewrite a; exact d) c1) as (x & y & F' & o' & s' & [fl ff]).
+  fold r in x, y, o', fl, ff.
+  split; auto. split; auto.
+  rewrite a in *.
+  apply wowns_append with (F := F) (H := H) (f := F'); auto.
+  - intros l hl. rewrite ff.
+    + apply nth_error_app1; auto.
+    + rewrite app_length; lia.
+    + intros hi. apply e in hi. lia.
+  - repeat split; auto.
+  - intros l hl. destruct (s' l hl) as [h|h]; [auto|]. rewrite app_length in h. lia.
+Qed.
+
+Lemma hparse_from_cons k T cb H ss vs ty id rest :
+  hparse_from k T cb H ss vs ((ty, id) :: rest) =
+  let '(H1, ss1, vs1, kd) := hfeed k T cb H ss vs ty id false in
+  match kd with KShift => hparse_from k T cb H1 ss1 vs1 rest | _ => (H1, ss1, vs1, kd) end.
+Proof. reflexivity. Qed.
+Lemma hparse_from_nil k T cb H ss vs : hparse_from k T cb H ss vs [] = hfeed k T cb H ss vs END 0 true.
+Proof. reflexivity. Qed.
+Lemma pparse_from_cons k T cb ss ts ty id rest :
+  pparse_from k T cb ss ts ((ty, id) :: rest) =
+  let '(ss1, ts1, kd) := pfeed k T cb ss ts ty id false in
+  match kd with KShift => pparse_from k T cb ss1 ts1 rest | _ => (ss1, ts1, kd) end.
+Proof. reflexivity. Qed.
+Lemma pparse_from_nil k T cb ss ts : pparse_from k T cb ss ts [] = pfeed k T cb ss ts END 0 true.
+Proof. reflexivity. Qed.
+
+Arguments copy_parser : simpl never.
+Arguments hifeed : simpl never.
+Arguments pifeed : simpl never.
+Arguments accepts_loop : simpl never.
+Arguments hparse_from : simpl never.
+Arguments pparse_from : simpl never.
+
+Lemma wstep_sim k T cb w pps o F :
+  wowns (w_heap w) pps (w_ps w) F -> all_deep o ->
+  (exists F', wowns (w_heap (fst (wstep k T cb w o))) (fst (pstep k T cb pps o))
+                    (w_ps (fst (wstep k T cb w o))) F') /\
+  snd (wstep k T cb w o) = snd (pstep k T cb pps o).
+Proof.
+  intros hw hdeep. destruct w as [H ps]. simpl in hw.
+  pose proof (wowns_length _ _ _ _ hw) as hlen.
+  destruct o as [i ty id|i deep|i|i|i|i toks]; simpl.
+  - (* feed *)
+    destruct (nth_error ps i) as [p|] eqn:En.
+    2:{ rewrite (wowns_none _ _ _ _ _ hw En). simpl. eauto. }
+    destruct (wowns_set _ _ _ _ hw i p En) as (pp & f & a & (hi & hs & ho) & c & d).
+    rewrite a. rewrite <- hi.
+    destruct (p_imm p) eqn:Eimm.
+    + pose proof (append_after_copy H pps ps F p (pp_ts pp) f
+                   (fun H1 p1 => hifeed k T cb H1 (p_ss p1) (p_vs p1) ty id)
+                   (pifeed k T cb (pp_ss pp) (pp_ts pp) ty id) true hw ho) as hh.
+      simpl in hh.
+      destruct hh as (x & y & F' & hw').
+      { intros H1 p1 f1 h1 h2. rewrite h2, hs. apply hfeed_sim; auto. }
+      destruct (copy_parser true H p) as [H1 c0]. simpl in *.
+      destruct (hifeed k T cb H1 (p_ss c0) (p_vs c0) ty id) as [[[H2 ss2] vs2] kd].
+      destruct (pifeed k T cb (pp_ss pp) (pp_ts pp) ty id) as [[qs2 ts2] qk].
+      unfold rss, rkd, rH, rvs, qss, qkd, qts in *. simpl in *. subst. rewrite hlen. eauto.
+    + pose proof (hfeed_sim T cb k H (p_ss p) (p_vs p) (pp_ts pp) f ty id (ty =? END) ho) as hh.
+      unfold hifeed, pifeed. rewrite <- hs.
+      destruct (hfeed k T cb H (p_ss p) (p_vs p) ty id (ty =? END)) as [[[H2 ss2] vs2] kd].
+      destruct (pfeed k T cb (p_ss p) (pp_ts pp) ty id (ty =? END)) as [[qs2 ts2] qk].
+      destruct hh as (x & y & F' & o' & s' & f').
+      unfold rss, rkd, rH, rvs, qss, qkd, qts in *. simpl in *. subst.
+      destruct (d H2 {| pp_imm := false; pp_ss := qs2; pp_ts := ts2 |}
+                  {| p_imm := false; p_ss := qs2; p_vs := vs2 |} F') as (F'' & hw'' & _); auto.
+      { repeat split; auto. }
+      eauto.
+  - (* copy *)
+    destruct deep; [|contradiction].
+    destruct (nth_error ps i) as [p|] eqn:En.
+    2:{ rewrite (wowns_none _ _ _ _ _ hw En). simpl. eauto. }
+    destruct (wowns_set _ _ _ _ hw i p En) as (pp & f & a & (hi & hs & ho) & c & d).
+    rewrite a.
+    destruct (copy_parser_deep_spec _ _ _ _ ho) as (ext & f1 & e1 & e2 & e3 & e4 & e5).
+    destruct (copy_parser true H p) as [H1 c0]. simpl in *. subst H1. rewrite hlen. split; auto.
+    apply wowns_append with (F := F) (H := H) (f := f1); auto.
+    + intros l hl. apply nth_error_app1; auto.
+    + repeat split; auto; congruence.
+  - (* as_immutable *)
+    destruct (nth_error ps i) as [p|] eqn:En.
+    2:{ rewrite (wowns_none _ _ _ _ _ hw En). simpl. eauto. }
+    destruct (wowns_set _ _ _ _ hw i p En) as (pp & f & a & (hi & hs & ho) & c & d).
+    rewrite a.
+    destruct (copy_parser_deep_spec _ _ _ _ ho) as (ext & f1 & e1 & e2 & e3 & e4 & e5).
+    destruct (copy_parser true H p) as [H1 c0]. simpl in *. subst H1. rewrite hlen. split; auto.
+    apply wowns_append with (F := F) (H := H) (f := f1); auto.
+    + intros l hl. apply nth_error_app1; auto.
+    + repeat split; auto; simpl; congruence.
+  - (* as_mutable *)
+    destruct (nth_error ps i) as [p|] eqn:En.
+    2:{ rewrite (wowns_none _ _ _ _ _ hw En). simpl. eauto. }
+    destruct (wowns_set _ _ _ _ hw i p En) as (pp & f & a & (hi & hs & ho) & c & d).
+    rewrite a.
+    destruct (copy_parser_deep_spec _ _ _ _ ho) as (ext & f1 & e1 & e2 & e3 & e4 & e5).
+    destruct (copy_parser true H p) as [H1 c0]. simpl in *. subst H1. rewrite hlen. split; auto.
+    apply wowns_append with (F := F) (H := H) (f := f1); auto.
+    + intros l hl. apply nth_error_app1; auto.
+    + repeat split; auto; simpl; congruence.
+  - (* accepts *)
+    destruct (nth_error ps i) as [p|] eqn:En.
+    2:{ rewrite (wowns_none _ _ _ _ _ hw En). simpl. eauto. }
+    destruct (wowns_set _ _ _ _ hw i p En) as (pp & f & a & (hi & hs & ho) & c & d).
+    rewrite a.
+    destruct (accepts_loop_spec k T p _ _ (choices T p) H ho) as [[ext e1] e2].
+    destruct (accepts_loop k T H p (choices T p)) as [H1 acc]. simpl in *. subst H1 acc.
+    rewrite (paccepts_eq k T pp p hs). split; auto.
+    exists F. eapply wowns_frame; eauto. intros l hl. apply nth_error_app1. eapply wowns_bound; eauto.
+  - (* resume_parse *)
+    destruct (nth_error ps i) as [p|] eqn:En.
+    2:{ rewrite (wowns_none _ _ _ _ _ hw En). simpl. eauto. }
+    destruct (wowns_set _ _ _ _ hw i p En) as (pp & f & a & (hi & hs & ho) & c & d).
+    rewrite a.
+    pose proof (hparse_from_sim T cb k toks H (p_ss p) (p_vs p) (pp_ts pp) f ho) as hh.
+    rewrite <- hs.
+    destruct (hparse_from k T cb H (p_ss p) (p_vs p) toks) as [[[H2 ss2] vs2] kd].
+    destruct (pparse_from k T cb (p_ss p) (pp_ts pp) toks) as [[qs2 ts2] qk].
+    destruct hh as (x & y & F' & o' & s' & f').
+    unfold rss, rkd, rH, rvs, qss, qkd, qts in *. simpl in *. subst.
+    destruct (d H2 {| pp_imm := pp_imm pp; pp_ss := qs2; pp_ts := ts2 |}
+                {| p_imm := p_imm p; p_ss := qs2; p_vs := vs2 |} F') as (F'' & hw'' & _); auto.
+    { repeat split; auto. }
+    eauto.
+Qed.
+
+Lemma wrun_sim k T cb os : forall w pps F,
+  wowns (w_heap w) pps (w_ps w) F -> Forall all_deep os ->
+  (exists F', wowns (w_heap (fst (wrun k T cb w os))) (fst (prun k T cb pps os))
+                    (w_ps (fst (wrun k T cb w os))) F') /\
+  snd (wrun k T cb w os) = snd (prun k T cb pps os).
+Proof.
+  induction os as [|o os IH]; intros w pps F hw hd; simpl.
+  - eauto.
+  - inversion hd; subst.
+    destruct (wstep_sim k T cb w pps o F hw H1) as [[F1 h1] h2].
+    destruct (wstep k T cb w o) as [w1 ob]. destruct (pstep k T cb pps o) as [pps1 pob].
+    simpl in *. subst pob.
+    destruct (IH w1 pps1 F1 h1 H2) as [[F2 h3] h4].
+    destruct (wrun k T cb w1 os) as [w2 obs]. destruct (prun k T cb pps1 os) as [pps2 pobs].
+    simpl in *. subst. eauto.
+Qed.
+
+(* ------------------------------------------------------------------ own history of each fork *)
+Definition hrel k T cb (pp : pparser) (h : lineage) : Prop :=
+  pp_imm pp = fst h /\ (pp_ss pp, pp_ts pp) = preplay k T cb (snd h).
+
+Lemma preplay_snoc k T cb ev e : preplay k T cb (ev ++ [e]) = preplay1 k T cb (preplay k T cb ev) e.
+Proof. unfold preplay. rewrite fold_left_app. auto. Qed.
+
+Lemma Forall2_nth {A B} (R : A -> B -> Prop) l1 l2 i x :
+  Forall2 R l1 l2 -> nth_error l1 i = Some x -> exists y, nth_error l2 i = Some y /\ R x y.
+Proof.
+  intros h. revert i. induction h; intros [|i]; simpl; try discriminate.
+  - intros e; inversion e; subst; eauto.
+  - auto.
+Qed.
+Lemma Forall2_nth_none {A B} (R : A -> B -> Prop) l1 l2 i :
+  Forall2 R l1 l2 -> nth_error l1 i = None -> nth_error l2 i = None.
+Proof.
+  intros h. revert i. induction h; intros [|i]; simpl; try discriminate; auto.
+Qed.
+Lemma Forall2_set_nth {A B} (R : A -> B -> Prop) l1 l2 i x y :
+  Forall2 R l1 l2 -> R x y -> Forall2 R (set_nth l1 i x) (set_nth l2 i y).
+Proof.
+  intros h. revert i. induction h; intros [|i] hr; simpl; constructor; auto.
+Qed.
+Lemma Forall2_snoc {A B} (R : A -> B -> Prop) l1 l2 x y :
+  Forall2 R l1 l2 -> R x y -> Forall2 R (l1 ++ [x]) (l2 ++ [y]).
+Proof. intros h hr. apply Forall2_app; auto. Qed.
+
+Lemma pstep_lineage k T cb pps hs o :
+  Forall2 (hrel k T cb) pps hs -> Forall2 (hrel k T cb) (fst (pstep k T cb pps o)) (lstep hs o).
+Proof.
+  intros hf. destruct o as [i ty id|i deep|i|i|i|i toks]; simpl.
+  - destruct (nth_error pps i) as [pp|] eqn:En.
+    2:{ rewrite (Forall2_nth_none _ _ _ _ hf En). auto. }
+    destruct (Forall2_nth _ _ _ _ _ hf En) as ([imm ev] & a & b & c). rewrite a. simpl in b, c.
+    destruct (pifeed k T cb (pp_ss pp) (pp_ts pp) ty id) as [[ss2 ts2] kd] eqn:E.
+    rewrite b. destruct imm; simpl.
+    + apply Forall2_snoc; auto. split; auto. simpl. rewrite preplay_snoc, <- c. simpl. rewrite E. auto.
+    + apply Forall2_set_nth; auto. split; auto. simpl. rewrite preplay_snoc, <- c. simpl. rewrite E. auto.
+  - destruct (nth_error pps i) as [pp|] eqn:En.
+    2:{ rewrite (Forall2_nth_none _ _ _ _ hf En). auto. }
+    destruct (Forall2_nth _ _ _ _ _ hf En) as (h & a & b). rewrite a. simpl.
+    apply Forall2_snoc; auto.
+  - destruct (nth_error pps i) as [pp|] eqn:En.
+    2:{ rewrite (Forall2_nth_none _ _ _ _ hf En). auto. }
+    destruct (Forall2_nth _ _ _ _ _ hf En) as ([imm ev] & a & b & c). rewrite a. simpl.
+    apply Forall2_snoc; auto. split; auto.
+  - destruct (nth_error pps i) as [pp|] eqn:En.
+    2:{ rewrite (Forall2_nth_none _ _ _ _ hf En). auto. }
+    destruct (Forall2_nth _ _ _ _ _ hf En) as ([imm ev] & a & b & c). rewrite a. simpl.
+    apply Forall2_snoc; auto. split; auto.
+  - destruct (nth_error pps i) as [pp|] eqn:En; auto.
+  - destruct (nth_error pps i) as [pp|] eqn:En.
+    2:{ rewrite (Forall2_nth_none _ _ _ _ hf En). auto. }
+    destruct (Forall2_nth _ _ _ _ _ hf En) as ([imm ev] & a & b & c). rewrite a. simpl in b, c.
+    destruct (pparse_from k T cb (pp_ss pp) (pp_ts pp) toks) as [[ss2 ts2] kd] eqn:E. simpl.
+    apply Forall2_set_nth; auto. split; auto. simpl. rewrite preplay_snoc, <- c. simpl. rewrite E. auto.
+Qed.
+
+Lemma prun_lineage k T cb os : forall pps hs,
+  Forall2 (hrel k T cb) pps hs ->
+  Forall2 (hrel k T cb) (fst (prun k T cb pps os)) (fold_left lstep os hs).
+Proof.
+  induction os as [|o os IH]; intros pps hs hf; simpl; auto.
+  pose proof (pstep_lineage k T cb pps hs o hf) as h1.
+  destruct (pstep k T cb pps o) as [pps1 ob]. simpl in h1.
+  specialize (IH pps1 _ h1).
+  destruct (prun k T cb pps1 os) as [pps2 obs]. simpl in *. auto.
+Qed.
+
+(* ================================================================== the theorems *)
+
+(* reading every value of a parser's stack off the heap *)
+Definition read_stack (H : heap) (p : parser) : list ptree := map (read (S (length H)) H) (p_vs p).
+
+(* fork_separation: after any sequence of feed / copy / as_immutable / as_mutable / accepts /
+   resume operations in which every copy is deep, (1) every observation made on the way is the
+   one made on immutable trees, (2) no two parsers reach a common child list, and (3) each
+   parser's stacks are exactly those of a fresh parser that went through that parser's own
+   history - whatever was done to any other fork in between. *)
+Theorem fork_separation k T cb os :
+  Forall all_deep os ->
+  let w := fst (wrun k T cb (world0 T) os) in
+  snd (wrun k T cb (world0 T) os) = snd (prun k T cb (pworld0 T) os) /\
+  exists pps F,
+    wowns (w_heap w) pps (w_ps w) F /\
+    forall j p, nth_error (w_ps w) j = Some p ->
+      exists h, nth_error (lineages os) j = Some h /\
+                p_imm p = fst h /\
+                (p_ss p, read_stack (w_heap w) p) = preplay k T cb (snd h).
+Proof.
+  intros hd w.
+  assert (hw0 : wowns (w_heap (world0 T)) (pworld0 T) (w_ps (world0 T)) ([] ++ [])).
+  { unfold world0, pworld0. cbn [w_heap w_ps].
+    apply (wo_cons [] _ [] _ [] [] []); auto using disjoint_nil_r.
+    - split; [reflexivity|]. split; [reflexivity|]. simpl. constructor.
+    - constructor. }
+  destruct (wrun_sim k T cb os (world0 T) (pworld0 T) _ hw0 hd) as [[F hw] hobs].
+  split; auto. fold w in hw.
+  exists (fst (prun k T cb (pworld0 T) os)), F. split; auto.
+  intros j p hj.
+  destruct (wowns_set _ _ _ _ hw j p hj) as (pp & f & a & (hi & hs & ho) & c & _).
+  assert (hl : Forall2 (hrel k T cb) (pworld0 T) [(false, [])]).
+  { constructor; auto. split; auto. }
+  pose proof (prun_lineage k T cb os _ _ hl) as hf.
+  destruct (Forall2_nth _ _ _ _ _ hf a) as (h & b & him & hst).
+  exists h. split; auto. split; [congruence|].
+  unfold read_stack. rewrite (reads_own _ _ _ _ ho).
+  - rewrite hs. auto.
+  - pose proof (owns_fp_le _ _ _ _ ho). lia.
+Qed.
+
+(* trial_feed_pure: a feed with callbacks = {} only allocates; every existing list object keeps
+   its content (so accepts() cannot disturb the parser it is asked on, nor any other) *)
+Theorem trial_feed_pure k T H ss vs ty id e :
+  exists ext, rH (hfeed k T (fun _ => cb_none) H ss vs ty id e) = H ++ ext.
+Proof. apply hfeed_pure. auto. Qed.
+
+(* accepts_exact *)
+Definition table_wf (T : table) : Prop :=
+  forall s t, In t (terms T s) <-> action T s t <> None.
+
+Lemma cfeed_ok_action k T s ss t e : kind_ok (snd (cfeed k T (s :: ss) t e)) = true -> action T s t <> None.
+Proof. destruct k; simpl; [discriminate|]. destruct (action T s t); [discriminate|simpl; discriminate]. Qed.
+
+Theorem accepts_exact k T cb H p ts f t id :
+  table_wf T -> owns H ts (p_vs p) f ->
+  let c := copy_parser true H p in
+  In t (snd (accepts_loop k T H p (choices T p))) <->
+  kind_ok (rkd (hifeed k T cb (fst c) (p_ss (snd c)) (p_vs (snd c)) t id)) = true.
+Proof.
+  intros hwf ho c.
+  destruct (accepts_loop_spec k T p ts f (choices T p) H ho) as [_ ->].
+  destruct (copy_parser_deep_spec _ _ _ _ ho) as (ext & f' & a & b & c1 & d & e).
+  fold c in c1. rewrite c1.
+  pose proof (hfeed_ctrl T cb k (fst c) (p_ss p) (p_vs (snd c)) t id (t =? END)) as hc.
+  unfold hifeed.
+  destruct (cfeed k T (p_ss p) t (t =? END)) as [ss2 kd] eqn:E.
+  inversion hc as [[h1 h2]]. rewrite h2.
+  rewrite filter_In. rewrite E. simpl. split; [tauto|].
+  intros hk. split; auto. unfold choices.
+  destruct (p_ss p) as [|s ss].
+  - destruct k; simpl in E; inversion E; subst; discriminate.
+  - apply hwf. apply (cfeed_ok_action k T s ss t (t =? END)). rewrite E. auto.
+Qed.
+
+(* feed_eq_parse: feeding the tokens one at a time and then $END is parse_from_state *)
+Theorem feed_eq_parse k T cb toks : forall H ss vs,
+  Forall (fun t => fst t <> END) toks ->
+  hfeed_all k T cb H ss vs toks = hparse_from k T cb H ss vs toks.
+Proof.
+  induction toks as [|[ty id] rest IH]; intros H ss vs hf; simpl; auto.
+  rewrite hparse_from_cons.
+  inversion hf; subst. simpl in H2. unfold hifeed at 1.
+  destruct (Nat.eqb_spec ty END); [contradiction|].
+  destruct (hfeed k T cb H ss vs ty id false) as [[[H1 ss1] vs1] kd].
+  destruct kd; auto.
+Qed.
+
+(* ... and on immutable trees: a fork whose own history is "tokens, then $END" and whose parse
+   succeeds ends with the stacks, hence the result, of Lark.parse on those tokens *)
+Lemma pfeed_false_not_result k T cb : forall ss ts ty id, qkd (pfeed k T cb ss ts ty id false) <> KResult.
+Proof.
+  induction k as [|k IH]; intros; simpl; try discriminate.
+  destruct ss as [|s ss']; try discriminate.
+  destruct (action T s ty) as [[s'|r]|]; try discriminate.
+  destruct (skipn (rarity T r) (s :: ss')) as [|s0 ss0]; try discriminate.
+  destruct (goto T s0 (rlhs T r)) as [s1|]; try discriminate.
+  simpl. apply IH.
+Qed.
+
+Lemma preplay_feeds k T cb toks : forall ss ts ss' ts',
+  Forall (fun t => fst t <> END) toks ->
+  pparse_from k T cb ss ts toks = (ss', ts', KResult) ->
+  fold_left (preplay1 k T cb) (map (fun t => EFeed (fst t) (snd t)) toks ++ [EFeed END 0]) (ss, ts) = (ss', ts').
+Proof.
+  induction toks as [|[ty id] rest IH]; intros ss ts ss' ts' hf hp; simpl in *.
+  - unfold pifeed. simpl. rewrite pparse_from_nil in hp. rewrite hp. auto.
+  - rewrite pparse_from_cons in hp.
+    inversion hf; subst. simpl in H1. unfold pifeed.
+    destruct (Nat.eqb_spec ty END); [contradiction|].
+    pose proof (pfeed_false_not_result k T cb ss ts ty id) as hnr.
+    destruct (pfeed k T cb ss ts ty id false) as [[ss1 ts1] kd].
+    destruct kd; try discriminate; [apply IH; auto|]. elim hnr. reflexivity.
+Qed.
+
+Theorem fork_result_eq_parse k T cb toks ss ts :
+  Forall (fun t => fst t <> END) toks ->
+  pparse k T cb toks = (ss, ts, KResult) ->
+  preplay k T cb (map (fun t => EFeed (fst t) (snd t)) toks ++ [EFeed END 0]) = (ss, ts).
+Proof. intros. apply preplay_feeds; auto. Qed.
+
+(* resume_eq_parse_rest *)
+(* feeding a prefix while every token shifts *)
+Definition hstep k T cb (st : heap * list nat * list value * kind) (t : nat * nat) :=
+  match st with
+  | (H, ss, vs, KShift) => hfeed k T cb H ss vs (fst t) (snd t) false
+  | _ => st
+  end.
+Definition hfeeds k T cb H ss vs pre := fold_left (hstep k T cb) pre (H, ss, vs, KShift).
+
+Lemma hstep_stop k T cb pre : forall H ss vs kd, kd <> KShift ->
+  fold_left (hstep k T cb) pre (H, ss, vs, kd) = (H, ss, vs, kd).
+Proof. induction pre; simpl; auto. intros. destruct kd; try congruence; apply IHpre; auto. Qed.
+
+Lemma hparse_from_app k T cb pre : forall H ss vs rest,
+  hparse_from k T cb H ss vs (pre ++ rest) =
+  match hfeeds k T cb H ss vs pre with
+  | (H1, ss1, vs1, KShift) => hparse_from k T cb H1 ss1 vs1 rest
+  | r => r
+  end.
+Proof.
+  unfold hfeeds. induction pre as [|[ty id] pre IH]; intros; simpl; auto.
+  rewrite hparse_from_cons.
+  destruct (hfeed k T cb H ss vs ty id false) as [[[H1 ss1] vs1] kd].
+  destruct kd; try (rewrite IH; auto; fail); rewrite hstep_stop; auto; discriminate.
+Qed.
+
+(* parse stops at the unexpected token with the parser state st_e exposed to the error handler;
+   resume_parse() from st_e on the rest of the input is exactly "feed the rest one by one from
+   st_e, then $END" - i.e. a parse of the remaining input from that configuration *)
+Theorem resume_eq_parse_rest k T cb pre bad rest H ss vs H1 ss1 vs1 He sse vse :
+  Forall (fun t => fst t <> END) rest ->
+  hfeeds k T cb H ss vs pre = (H1, ss1, vs1, KShift) ->
+  hfeed k T cb H1 ss1 vs1 (fst bad) (snd bad) false = (He, sse, vse, KError) ->
+  hparse_from k T cb H ss vs (pre ++ bad :: rest) = (He, sse, vse, KError) /\
+  hparse_from k T cb He sse vse rest = hfeed_all k T cb He sse vse rest.
+Proof.
+  intros hf h1 h2. split.
+  - rewrite hparse_from_app. rewrite h1. destruct bad as [ty id]. rewrite hparse_from_cons. simpl in *. rewrite h2. auto.
+  - symmetry. apply feed_eq_parse. auto.
+Qed.
